@@ -8,6 +8,8 @@ demo fails with the change and passes without it.
 import json, os, shutil, subprocess, sys
 prop = sys.argv[1]
 num = prop[1:]
+SRC = os.environ.get("SEED_SRC", "/tmp/seed-c") + num      # SEED_SRC=/tmp/seed2-c for the second round
+OFFSET = int(os.environ.get("SEED_OFFSET", "0"))            # SEED_OFFSET=3: patch1 is filed as <id>-4
 ns = sys.argv[2:] or ["1", "2", "3"]
 WT = "/tmp/wt-intake-%s" % num
 def sh(c, cwd=None, timeout=1200):
@@ -24,14 +26,14 @@ def tests(cwd):
         if l.startswith("error"): f += 1000
     return p, f
 def demo(cwd, n):
-    shutil.copy("/tmp/seed-c%s/demo%s.rs" % (num, n), os.path.join(cwd, "tests", "demo%s.rs" % n))
+    shutil.copy("%s/demo%s.rs" % (SRC, n), os.path.join(cwd, "tests", "demo%s.rs" % n))
     r = sh("cargo test --offline%s --test demo%s 2>&1 | tail -30" % (feat, n), cwd=cwd)
     os.remove(os.path.join(cwd, "tests", "demo%s.rs" % n))
     ok = "test result: ok" in r.stdout
     return ok, r.stdout
 try:
     for n in ns:
-        src = "/tmp/seed-c%s" % num
+        src = SRC
         if not os.path.exists("%s/patch%s.diff" % (src, n)):
             print(prop, n, "no patch"); continue
         base_ok, base_out = demo(WT, n)
@@ -47,7 +49,7 @@ try:
         if not good:
             print(base_out[-600:] if not base_ok else mut_out[-600:])
             continue
-        dst = "/verif/seeded/%s-%s" % (prop, n)
+        dst = "/verif/seeded/%s-%d" % (prop, int(n) + OFFSET)
         os.makedirs(dst, exist_ok=True)
         shutil.copy("%s/patch%s.diff" % (src, n), dst + "/patch.diff")
         shutil.copy("%s/demo%s.rs" % (src, n), dst + "/demo.rs")
